@@ -339,17 +339,64 @@ fn seq_strategy(excl: Excl, huge: bool) -> BoxedStrategy<SeqCase> {
         .boxed()
 }
 
+/// few operations, long requests: lengths around the 1 KiB / 4 KiB / 8 KiB / 16 KiB marks an implementation may
+/// treat specially, and arbitrary ones up to 20 000 bytes
+fn seq_long_strategy() -> BoxedStrategy<SeqCase> {
+    let long_len = prop_oneof![
+        3 => prop::sample::select(vec![1023u64, 1024, 1025, 4095, 4096, 4097, 4100, 4351, 4352, 8191, 8192, 8193, 12288, 12289, 16384, 16385]),
+        1 => 600u64..=20000,
+    ];
+    let none = Excl { slice: false, array: false };
+    let long_item = prop_oneof![
+        3 => long_len.clone().prop_flat_map(|n| bytes(n as usize).prop_map(move |p| (Op::ReadSlice(n), p))),
+        3 => long_len.clone().prop_flat_map(|n| bytes(n as usize).prop_map(move |p| (Op::ReadVec(n), p))),
+        2 => long_len.prop_flat_map(|n| prop::collection::vec(0x20u8..0x7f, n as usize).prop_map(|p| (Op::ReadString(p.len() as u16), p))),
+    ];
+    let item = prop_oneof![3 => long_item, 5 => item_strategy(none, false)];
+    let tail = prop_oneof![
+        3 => Just(Tail::Exact),
+        3 => prop::collection::vec(any::<u8>(), 1..40).prop_map(Tail::Extra),
+        1 => prop::collection::vec(any::<u8>(), 200..600).prop_map(Tail::Extra),
+        2 => any::<u16>().prop_map(Tail::Truncate),
+    ];
+    (prop::collection::vec(item, 1..15), chunk_strategy(), tail)
+        .prop_map(|(items, chunks, tail)| {
+            let mut data = vec![];
+            let mut ops = vec![];
+            for (op, p) in items {
+                data.extend_from_slice(&p);
+                ops.push(op);
+            }
+            match tail {
+                Tail::Exact => {},
+                Tail::Extra(t) => data.extend_from_slice(&t),
+                Tail::Truncate(sel) => {
+                    let keep = vf_core::pick_index(sel, data.len() + 1);
+                    data.truncate(keep);
+                },
+            }
+            data.truncate(70_000);
+            let keep_going = (data.len() + ops.len()) % 5 < 2;
+            SeqCase { data: vf_core::hex(&data), chunks, ops, keep_going }
+        })
+        .boxed()
+}
+
 // THE SUB-CHECK
 // ================================================================================================
 
 pub struct Seq {
     pub huge: bool,
     pub excl: Excl,
+    /// variant with few operations and long requests (read_slice / read_vec / read_string of 1 KiB .. 20 KB)
+    pub long: bool,
 }
 
 impl Seq {
     fn sub_name(&self) -> &'static str {
-        if self.huge {
+        if self.long {
+            "seq-long"
+        } else if self.huge {
             "seq-huge"
         } else {
             "seq"
@@ -368,7 +415,9 @@ impl SubCheck for Seq {
         self.sub_name().into()
     }
     fn cases(&self, tier: Tier) -> u64 {
-        if self.huge {
+        if self.long {
+            tier.pick(60_000, 1_500_000)
+        } else if self.huge {
             tier.pick(20_000, 400_000)
         } else {
             tier.pick(400_000, 12_000_000)
@@ -385,6 +434,9 @@ impl SubCheck for Seq {
         let mut s = String::from(
             "1..59 operations over {read_u8, peek_u8, read_bool, read_u16/u32/u64/u128, read_usize, read_slice(n<=600 incl. 0), read_array<0|1|8|16|32|300>, read_vec, read_string, read_many<u8|u64|(u8,u16)>, check_eor, has_more_bytes}; byte stream (<=2000 bytes) assembled from per-operation payloads (valid vint64 / 0-1 / UTF-8 mostly), then exact / extended / truncated; source chunking in {1-byte, <16, random, around 256, around 512, one big}, never a zero-length chunk before EOF; model SliceReader, Cursor and ReadAdapter compared after every step and by a final drain; in two fifths of the cases the sequence goes on after a failed operation (a failed read leaves every reader where it was). non-trivial = a source chunk boundary falls strictly inside a multi-byte read AND a read_slice(n>0) is followed by another consuming read; distinct by whole case",
         );
+        if self.long {
+            s.push_str("; this variant: 1..14 operations over a stream of up to 70 000 bytes, three in eight of them read_slice / read_vec / read_string requests of 1023..20000 bytes (1023, 1024, 1025, 4095, 4096, 4097, 4100, 4351, 4352, 8191, 8192, 8193, 12288, 12289, 16384, 16385 favoured), the others as above");
+        }
         if self.huge {
             s.push_str("; this variant adds requests of 2^63-4..2^63+3 and usize::MAX-1999..usize::MAX bytes to check_eor/read_slice/read_vec");
         }
@@ -405,9 +457,13 @@ impl SubCheck for Seq {
         v.push("end=completed".into());
         v.push("end=error:UnexpectedEOF".into());
         v.push("end=error:InvalidValue".into());
-        if !self.huge {
+        if !self.huge && !self.long {
             v.push("continued-after-error".into());
             v.push("has_more_bytes-right-after-error".into());
+        }
+        if self.long {
+            v.push("long-read>4096-then-consuming-read".into());
+            return v;
         }
         if !self.excl.slice && !self.excl.array {
             v.push("crossed-boundary-in-multibyte-read".into());
@@ -418,6 +474,9 @@ impl SubCheck for Seq {
     }
     fn strategy(&self, _tier: Tier) -> BoxedStrategy<SeqCase> {
         let none = Excl { slice: false, array: false };
+        if self.long {
+            return seq_long_strategy();
+        }
         if self.excl != none {
             prop_oneof![
                 49 => seq_strategy(self.excl, self.huge),
@@ -430,6 +489,12 @@ impl SubCheck for Seq {
     }
 
     fn check(&self, c: &SeqCase, obs: &mut Obs) -> CheckResult {
+        if self.long {
+            let big = |o: &Op| matches!(o, Op::ReadSlice(n) | Op::ReadVec(n) if *n > 4096 && *n < 1 << 32) || matches!(o, Op::ReadString(n) if *n > 4096);
+            if c.ops.windows(2).any(|w| big(&w[0])) {
+                obs.label("long-read>4096-then-consuming-read");
+            }
+        }
         vf_core::crash::guard_begin();
         let r = self.check_inner(c, obs);
         let max_req = vf_core::crash::guard_end();
@@ -691,10 +756,11 @@ pub fn run(run: &mut Run) {
     if excl.slice || excl.array {
         run.note("excluded_known", serde_json::json!({"slice-family": excl.slice, "array-family": excl.array}));
     }
-    run.sub(&Seq { huge: false, excl });
+    run.sub(&Seq { huge: false, excl, long: false });
+    run.sub(&Seq { huge: false, excl: Excl { slice: false, array: false }, long: true });
     let excl_h = Excl {
         slice: run.is_known("seq-huge/slice:") || run.is_known("seq-huge/post-slice:"),
         array: run.is_known("seq-huge/array:"),
     };
-    run.sub(&Seq { huge: true, excl: excl_h });
+    run.sub(&Seq { huge: true, excl: excl_h, long: false });
 }
